@@ -107,7 +107,7 @@ def run(cfg, faults=None, keep_events=True, workdir=None, kill_at=None):
         if cfg["dest_present"]:
             with open(dest, "wb") as f:
                 f.write(OLD)
-            os.chmod(dest, 0o640)
+            os.chmod(dest, cfg.get("dest_mode", 0o640))
         if cfg["part_present"] == "link" and cfg["dest_present"]:
             # what a crash between link() and unlink() of an earlier overwrite=False save leaves behind:
             # the part name is a second hard link to the destination's inode
@@ -155,7 +155,8 @@ def run(cfg, faults=None, keep_events=True, workdir=None, kill_at=None):
             warm = fileutils.atomic_save(dest, **kw)
             with warm as f:
                 f.write(OLD.decode("utf-8") if cfg["text_mode"] else OLD)
-            os.chmod(dest, 0o640)
+            # (another mode than at the first save: whatever the saver remembers of the file it replaced then is stale)
+            os.chmod(dest, cfg.get("dest_mode", 0o640) ^ 0o044)
             dest_ino["ino"] = fsio.REAL_LSTAT(dest).st_ino
             extra_fds = [os.open(os.path.join(d, "bystander%d.dat" % j), os.O_RDWR | os.O_CREAT, 0o600) for j in range(3)]
         init = classify()
@@ -196,7 +197,7 @@ def run(cfg, faults=None, keep_events=True, workdir=None, kill_at=None):
                         def appear():
                             with fsio.REAL_IO_OPEN(dest, "wb") as g:
                                 g.write(OLD)
-                            fsio.REAL["chmod"](dest, 0o640)
+                            fsio.REAL["chmod"](dest, cfg.get("dest_mode", 0o640))
                         ip.event("env_dest_appears", dest, appear)
             except BaseException as ex:
                 raised = core.exc_name(ex)
